@@ -48,6 +48,17 @@ func genScheme(t *rapid.T) *SchemeSpec {
 		return &SchemeSpec{Predefined: rapid.IntRange(1, 4).Draw(t, "which")}
 	}
 	models := []string{"gray", "gray16", "rgba", "nrgba", "cmyk"}
+	if rapid.IntRange(0, 4).Draw(t, "lookalike") == 0 {
+		// black on white (sometimes red on white) written in different colour types: schemes that look the same
+		// through RGBA() and are different values; also colour types that are not image/color's own (a caller-defined
+		// type, *image.Uniform as image.Black is)
+		blacks := []ColorSpec{{Model: "gray"}, {Model: "gray16"}, {Model: "rgba", V: [4]uint16{0, 0, 0, 255}}, {Model: "nrgba", V: [4]uint16{0, 0, 0, 255}},
+			{Model: "cmyk", V: [4]uint16{0, 0, 0, 255}}, {Model: "cmyk", V: [4]uint16{7, 9, 200, 255}}, {Model: "custom", V: [4]uint16{0, 0, 0, 65535}}, {Model: "uniform", V: [4]uint16{0, 0, 0, 255}},
+			{Model: "rgba", V: [4]uint16{255, 0, 0, 255}}, {Model: "nrgba", V: [4]uint16{255, 0, 0, 255}}, {Model: "custom", V: [4]uint16{65535, 0, 0, 65535}}}
+		whites := []ColorSpec{{Model: "gray", V: [4]uint16{255}}, {Model: "gray16", V: [4]uint16{65535}}, {Model: "rgba", V: [4]uint16{255, 255, 255, 255}}, {Model: "nrgba", V: [4]uint16{255, 255, 255, 255}},
+			{Model: "cmyk"}, {Model: "custom", V: [4]uint16{65535, 65535, 65535, 65535}}, {Model: "uniform", V: [4]uint16{255, 255, 255, 255}}, {Model: "nrgba", V: [4]uint16{9, 9, 9, 0}}, {Model: "rgba"}}
+		return &SchemeSpec{Model: rapid.SampledFrom(models).Draw(t, "lmodel"), FG: rapid.SampledFrom(blacks).Draw(t, "lfg"), BG: rapid.SampledFrom(whites).Draw(t, "lbg")}
+	}
 	model := rapid.SampledFrom(models).Draw(t, "model")
 	s := &SchemeSpec{FG: genColorSpec(t, model, "fg"), BG: genColorSpec(t, model, "bg")}
 	if rapid.IntRange(0, 3).Draw(t, "mixedtypes") == 0 {
